@@ -82,6 +82,7 @@ type c08State struct {
 	nild     []data.Map  // hand-built data with Go nils inside
 	structs  []*poolData // the data sets as Go structs, rendered through Tofu.Render (by pointer)
 	edits    []int       // how many times the caller has edited structs[i] in place
+	mode     string      // what vmode() currently returns ("A" or "B")
 	ij       []data.Map
 	cats     map[int]soymsg.Bundle
 	reused   map[string]*soyhtml.Renderer
@@ -297,7 +298,9 @@ func c08Exec(cs *c08Hist, counters map[string]int64) (*wk.Failure, int) {
 	if err != nil {
 		return &wk.Failure{Class: "invalid-case", Detail: err.Error()}, 0
 	}
-	st := &c08State{cs: cs, cc: cc, cats: map[int]soymsg.Bundle{}, reused: map[string]*soyhtml.Renderer{}, model: map[string]modelOut{}, counters: counters}
+	sut.SetMode("A")
+	defer sut.SetMode("A")
+	st := &c08State{mode: "A", cs: cs, cc: cc, cats: map[int]soymsg.Bundle{}, reused: map[string]*soyhtml.Renderer{}, model: map[string]modelOut{}, counters: counters}
 	for i, d := range cs.Bundle.Data {
 		st.data = append(st.data, d.Map())
 		st.ill = append(st.ill, illTyped(d, i).Map())
@@ -322,6 +325,19 @@ func c08Exec(cs *c08Hist, counters map[string]int64) (*wk.Failure, int) {
 		}
 		what := fmt.Sprintf("op %d (%s %s)", i, op.Op, op.Template)
 		counters["op_"+op.Op]++
+		if op.Op == "swap-func" {
+			// the application re-registers one of its functions between two renders
+			if st.mode == "A" {
+				st.mode = "B"
+			} else {
+				st.mode = "A"
+			}
+			sut.SetMode(st.mode)
+			st.model = map[string]modelOut{} // the model is a function of the registries too
+			pre = st.digests()
+			done++
+			continue
+		}
 		if op.Op == "edit-struct" {
 			// the caller changes its own data in place; what it renders next must show it
 			editStruct(st.structs[op.Data], st.edits[op.Data])
@@ -474,6 +490,7 @@ func c08Opts() gen.Opts {
 	o.Directives = []string{"|vfail", "|vq", "|vwrap"}
 	o.Funcs = []string{"vfail"}
 	o.ListFuncs = []string{"vpush"}
+	o.ModeFunc = true
 	return o
 }
 
@@ -533,6 +550,8 @@ func c08History(r *simrt.RNG, gc *gen.Case, maxLen int) *c08Hist {
 				cs.Ops = append(cs.Ops, op) // two edits
 			}
 			op.Op = "render-struct"
+		case x < 35:
+			op.Op = "swap-func"
 		case x < 36:
 			op.Op = "render-tofu"
 		case x < 38:
